@@ -220,7 +220,7 @@ class SumErrorNode(ErrorNode):
         def _flatten_sum(children: t.Iterable[ErrorNode]) -> t.Iterator[ErrorNode]:
             for child in children:
                 if isinstance(child, SumErrorNode):
-                    yield from child.children
+                    yield from _flatten_sum(child.children)
                 else:
                     yield child
 
